@@ -135,15 +135,24 @@ func fwdhandleControlMessageNP(process *Process, cm ControlMessage, re *RuntimeE
 		re.error(process, "expected FWD_ACTION")
 	}
 
-	// Notify that the process will change providers (i.e. the process.Providers will die and be replaced by cm.Providers)
-	process.terminateBeforeRename(process.Providers, cm.Providers, re)
+	// The request arrived on the control channel of the first provider, so only that provider is
+	// taken over: a process that provides on several names (e.g. a forward created by a split,
+	// before it is duplicated) keeps the remaining ones
+	takenOver := process.Providers[:1]
+	remaining := process.Providers[1:]
 
-	// the process.Providers can no longer be used, so close them
+	// Notify that the process will change providers (i.e. takenOver will die and be replaced by cm.Providers)
+	process.terminateBeforeRename(takenOver, cm.Providers, re)
+
+	// takenOver can no longer be used, so close it
 	// todo check if they are being closed anywhere else
-	closeProvidersNP(process.Providers)
+	closeProvidersNP(takenOver)
 
 	// Change the providers to the one being forwarded to
-	process.Providers = cm.Providers
+	newProviders := make([]Name, 0, len(cm.Providers)+len(remaining))
+	newProviders = append(newProviders, cm.Providers...)
+	newProviders = append(newProviders, remaining...)
+	process.Providers = newProviders
 
 	process.transitionLoopNP(re)
 }
